@@ -5,6 +5,7 @@
 From Coq Require Import ZArith QArith List Bool String.
 Require Import WV.model.C06Cascade WV.model.C06Inherit WV.model.C06Values.
 Require Import WV.proofs.C06_cascade WV.proofs.C06_order WV.proofs.C06_inherit WV.proofs.C06_values.
+Require WV.base.Py WV.gen.GenCss WV.proofs.C06_gen_precedence.
 Import ListNotations.
 
 (* ================================================================ 1. the cascade *)
@@ -44,6 +45,24 @@ Theorem C06_declaration_precedence_strings (o : origin) (i : bool) :
   declaration_precedence_str (origin_str o) i = Some (declaration_precedence o i).
 Proof. exact (precedence_str_origin o i). Qed.
 Print Assumptions C06_declaration_precedence_strings.
+
+(* the function REGENERATED from weasyprint/css/__init__.py on every run (gen/GenCss.v, interpreter base/Py.v)
+   computes that table for every origin string and importance flag; its assert fires exactly when the string is
+   not an origin *)
+Theorem C06_source_declaration_precedence (o : string) (imp : bool) :
+  Py.run Py.real_ops GenCss.declaration_precedence_body
+    [("origin"%string, Py.VStr o); ("importance"%string, Py.VBool imp)]
+    (fun _ r => exists z, declaration_precedence_str o imp = Some z /\ r = Some (Py.VNum (inject_Z z)))
+    (fun m => declaration_precedence_str o imp = None /\ m = "AssertionError"%string).
+Proof. exact (C06_gen_precedence.gen_declaration_precedence o imp). Qed.
+Print Assumptions C06_source_declaration_precedence.
+
+Theorem C06_source_declaration_precedence_origin (o : origin) (imp : bool) :
+  Py.run Py.real_ops GenCss.declaration_precedence_body
+    [("origin"%string, Py.VStr (origin_str o)); ("importance"%string, Py.VBool imp)]
+    (fun _ r => r = Some (Py.VNum (inject_Z (declaration_precedence o imp)))) (fun _ => False).
+Proof. exact (C06_gen_precedence.gen_declaration_precedence_origin o imp). Qed.
+Print Assumptions C06_source_declaration_precedence_origin.
 
 (* origin and importance come first: whatever the specificities and the order, no declaration for the property
    has a higher precedence than the winner *)
